@@ -15,7 +15,7 @@ from hypothesis import strategies as st
 
 from traits.adaptation.api import AdaptationManager, AdaptationError, get_global_adaptation_manager, set_global_adaptation_manager
 from traits.adaptation.adaptation_offer import AdaptationOffer
-from traits.api import HasTraits, Supports, AdaptsTo, Instance, TraitError
+from traits.api import HasTraits, Supports, AdaptsTo, Instance, TraitError, Either, Int, Str
 
 ID = "C17"
 LEVEL = "exploration"
@@ -112,7 +112,8 @@ def strategy(tier):
         "extra": st.lists(st.tuples(I5, I5, COND).map(list), max_size=4),
         "src": I5, "tgt": I5,
         "start_at_path": st.sampled_from([True, True, True, True, False]),
-        "mode": st.sampled_from(["adapt", "adapt", "adapt_default", "supports", "adaptsto", "instance_yes"]),
+        # (either_*: the adapting trait is one alternative of a compound)
+        "mode": st.sampled_from(["adapt", "adapt", "adapt_default", "supports", "adaptsto", "instance_yes", "either_supports", "either_instance_yes"]),
         # specificity scenario: a twin of the first offer registered for a protocol the source provides only by ABC
         # registration, or for a subclass of the source (which then is the adaptee's class)
         # "lazy-*": the twin offer names its protocol and factory by dotted strings into a module that is not imported yet
@@ -329,6 +330,10 @@ def _run(case, ctx):
                 H = type("H", (HasTraits,), {"x": Supports(T)})
             elif mode == "adaptsto":
                 H = type("H", (HasTraits,), {"x": AdaptsTo(T)})
+            elif mode == "either_supports":
+                H = type("H", (HasTraits,), {"x": Either(Int, Supports(T))})
+            elif mode == "either_instance_yes":
+                H = type("H", (HasTraits,), {"x": Either(Instance(T, adapt="yes"), Str)})
             else:
                 H = type("H", (HasTraits,), {"x": Instance(T, adapt="yes")})
             h = H()
